@@ -18,13 +18,14 @@ ASSUMPTIONS = ["reference grammar and lexer in vf/refparse.py (cross-checked on 
                "semantic rejections raised inside the parser (literal register size <= 0) and unlisted constructs (branch/case, "
                "'0101' literals, import..as) are outside the grammar clause and not judged"]
 TIERS = {"quick": {"shards": 8, "budget_s": 60}, "thorough": {"shards": 16, "budget_s": 480}}
-REQUIRE = {"entry-points-compared": 2000, "illegal-character-texts-judged": 1500, "mutation:lookalike-digit": 200, "mutation:same-kind-nesting": 300, "mutation:exotic-character": 500,
+REQUIRE = {"entry-points-compared": 2000, "illegal-character-texts-judged": 1500, "mutation:lookalike-digit": 200, "mutation:same-kind-nesting": 300, "mutation:refused-literal": 30, "mutation:exotic-character": 500,
            "shards-reducing-every-production-of-the-listed-grammar": 1, "layouts-checked": 2000, "near-misses-judged": 5000, "both-reject:position-checked": 2000,
            "layout:multiple-block-comments": 100, "layout:multiline-block-comment": 50, "layout:line-comment": 200,
            "mutation:truncate": 500, "mutation:header-after-body": 100, "both-accept:tree-compared": 300}
 
 ALPHABET = ["register", "map", "let", "macro", "loop", "from", "usepulses", "subcircuit", "{", "}", "<", ">", "|", ";", "[", "]",
-            ":", "*", ",", "\n", "q", "foo", "a", "x.y", "g", "0", "3", "-1", "+2", "1.5", "-0.25", "2.0e-3", ".m", "prepare_all"]
+            ":", "*", ",", "\n", "q", "foo", "a", "x.y", "g", "0", "3", "-1", "+2", "1.5", "-0.25", "2.0e-3", ".m", "prepare_all",
+            "as", "as", "1.0e999", "-2.5e400"]
 
 
 def lib_sexpr(text):
@@ -76,7 +77,9 @@ def judge_text(text, expect_tree=None):
                                                                        "message": got[3], "text": text}))
         return "ok", fails, info
     toks = ref[2]
-    if any(t.kind in ("BININT", "BRANCH", "IMPORT", "AS") for t in toks):
+    # constructs outside the listed grammar are not judged -- when they are USED as such: a binary literal, a branch
+    # statement, an import statement.  A reserved word in the place of an identifier (`let as 1`) is an ordinary near miss.
+    if any(t.kind in ("BININT", "BRANCH", "IMPORT") for t in toks):
         return "skipped:unlisted-construct", fails, info
     if ref[0] == "ok":
         if expect_tree is not None and not sx.sx_equal_strict(ref[1], expect_tree):
@@ -383,6 +386,12 @@ def near_misses(ctx, prog, n):
     nested = same_kind_nesting(rng, prog)
     if nested is not None:
         cases.append(("same-kind-nesting", None))
+    if rng.random() < 0.02:
+        # literals the lexer refuses as a whole (too long for an integer, out of range for a float): the error is AT the literal,
+        # whatever follows it on the line
+        lit = rng.choice(["9" * 4400, "-" + "1" * 5000, "1.0e999", "-.5e400"])
+        tail = rng.choice([" ", " // c", " /* c */ ", "\n", "]", " ; g"])
+        cases.append(("refused-literal", ["register", "q", "[", "2", "]", "\n", "g", lit + tail]))
     for kind, t in cases:
         text = sx.to_text(hb) if kind == "header-after-body" else sx.to_text(nested) if kind == "same-kind-nesting" else render_tokens(t)
         st, fails, info = judge_text(text)
